@@ -104,8 +104,10 @@ def run_rules(facts, rep, skip=()):
         rep.guarded("osc-arms", "perform_action", lambda: rule_osc_arms(facts, rep))
 
 
-def rule_osc_arms(facts, rep):
-    """The OSC bookkeeping arms by abstract evaluation, for every parameter count 0..=16: a payload byte is always appended to the raw
+def rule_osc_arms(facts, rep, full_buffer=False):
+    """(full_buffer: the fixed raw buffer of the `core` builds reports is_full() — the OscEnd cases must come out the same: the
+    terminator closes the last parameter whether or not the payload was cut at the limit.)
+    The OSC bookkeeping arms by abstract evaluation, for every parameter count 0..=16: a payload byte is always appended to the raw
     buffer (whatever the count — only a full fixed buffer may refuse it) and changes nothing else; `;` closes the current parameter
     as (end of the previous one or 0, current length) and counts it, unless 16 are closed already; OscEnd closes the last
     parameter the same way and then dispatches."""
@@ -116,7 +118,8 @@ def rule_osc_arms(facts, rep):
     LIM = C04_LIMIT = 16
     bad = {"payload-byte-always-buffered": [], "separator-closes-a-parameter": [], "end-closes-the-last-parameter-then-dispatches": []}
     n_cases = 0
-    for arm, byte_cases in (("OscPut", ((("int", 0x78), "payload"), (("int", 0x3b), "separator"))), ("OscEnd", ((("int", 0x07), "end"),))):
+    arms = (("OscPut", ((("int", 0x78), "payload"), (("int", 0x3b), "separator"))), ("OscEnd", ((("int", 0x07), "end"),)))
+    for arm, byte_cases in (arms[1:] if full_buffer else arms):
         for byte, what in byte_cases:
             for count in range(0, LIM + 1):
                 n_cases += 1
@@ -131,7 +134,7 @@ def rule_osc_arms(facts, rep):
                     "alloc::vec::Vec::<T, A>::push": lambda a_: (pushes.append(a_[1]), ("unit",))[1],
                     "arrayvec::arrayvec::ArrayVec::<T, CAP>::push": lambda a_: (pushes.append(a_[1]), ("unit",))[1],
                     "alloc::vec::Vec::<T, A>::len": lambda a_: ("sym", "raw-len"), "arrayvec::arrayvec::ArrayVec::<T, CAP>::len": lambda a_: ("sym", "raw-len"),
-                    "arrayvec::arrayvec::ArrayVec::<T, CAP>::is_full": lambda a_: ("bool", False),
+                    "arrayvec::arrayvec::ArrayVec::<T, CAP>::is_full": lambda a_: ("bool", full_buffer),
                     "core::slice::<impl [T]>::len": lambda a_: ("sym", "raw-len"),
                     "load:self.osc_params": load,
                     "store:self.osc_params": lambda a_: stores.append((a_[0], a_[1])),
@@ -166,7 +169,10 @@ def rule_osc_arms(facts, rep):
                     bad[key].append(f"{count} parameters closed: not evaluable: {ex}")
     rep.count(n_cases)
     for key, v in bad.items():
-        rep.check(not v, "osc-arms", b["path"], key, f"{n_cases} cases evaluated (parameter counts 0..=16) {v[:2]}"[:500], loc(b, tbl["OscPut"]))
+        if full_buffer and key != "end-closes-the-last-parameter-then-dispatches":
+            continue
+        rep.check(not v, "osc-arms", b["path"], key + ("@full-buffer" if full_buffer else ""),
+                  f"{n_cases} cases evaluated (parameter counts 0..=16) {v[:2]}"[:500], loc(b, tbl["OscPut"]))
 
 
 def rule_unpack(facts, rep):
